@@ -57,13 +57,13 @@ def split_targs(s):
     return out
 
 
-_CMP_CACHE = {}
 
 
 def comparator_uses_addresses(F, name):
     """True iff the call operator of comparator class `name` orders by comparing raw pointers somewhere (a < b on pointer operands)."""
-    if (id(F), name) in _CMP_CACHE:
-        return _CMP_CACHE[(id(F), name)]
+    cache = F.__dict__.setdefault('_c29_cmp_cache', {})     # per Facts object (id(F) can be reused after a scratch copy is freed)
+    if name in cache:
+        return cache[name]
     res = False
     if name.startswith('std::less<') or name.startswith('std::greater<'):
         res = name.rstrip('>').rstrip().endswith('*')
@@ -85,7 +85,7 @@ def comparator_uses_addresses(F, name):
                         inner.append((c0 or {}).get('t') or '')
                     if all(t.rstrip().endswith('*') for t in inner):
                         res = True
-    _CMP_CACHE[(id(F), name)] = res
+    cache[name] = res
     return res
 
 
